@@ -1,10 +1,26 @@
-(* The two-watched-literal invariant along the operations of sat_core (no theory attached: lemmas recorded by a
-   theory would need a level condition in the theory contract). *)
+(* The two-watched-literal invariant along the operations of sat_core, for theories that record lemmas (theory::record) and
+   report conflicts, under one extra, NAMED clause of the theory contract (th_lemmas_wl below). *)
 From Coq Require Import List Arith Bool ZArith Lia Permutation Sorted.
 From ORatio Require Import smt.SatCoreBase smt.SatCoreSpec smt.SatCore proofs.SatCoreBase_Proofs proofs.SatCoreInv_Proofs
   proofs.SatCorePrim_Proofs proofs.SatCoreStep_Proofs proofs.SatCoreAnalyze_Proofs proofs.SatCoreUb_Proofs
   proofs.SatCoreRun_Proofs proofs.SatCoreLog_Proofs proofs.SatCoreThm_Proofs proofs.SatCoreWl_Proofs proofs.SatCoreWlProp_Proofs.
 Import ListNotations.
+
+(* What the watch invariant needs, beyond theory_contract, from the lemmas recorded during ONE call propagate(p):
+     - the first literal (the propagated one) is unassigned when the lemma is recorded
+       [sat_core::record: assert(value(lits[0]) == Undefined)], hence the lemmas of one call propagate literals of distinct variables;
+     - a lemma mentions a variable once [clause::new_clause watches lits[0] and lits[1]: they must be different variables];
+     - one of the other (false) literals was falsified at the CURRENT decision level [in theory::propagate(p) it is !p: after the
+       level-sort of sat_core::record it becomes lits[1], the second watch; a lemma whose false literals are all older would be unit
+       below the current level without having been propagated there]. *)
+Definition lemma_wl_ok {TS : Type} (s : @state TS) (lem : list lit) : Prop :=
+  match lem with
+  | [] => True
+  | l0 :: tail => value_lit s l0 = LU /\ NoDup (map fst lem) /\
+                  (tail <> [] -> exists m, In m tail /\ nth (fst m) (level s) 0 = decision_level s)
+  end.
+Definition lemmas_wl_ok {TS : Type} (s : @state TS) (lems : list (list lit)) : Prop :=
+  NoDup (map (fun l => fst (hd TRUE_lit l)) lems) /\ Forall (lemma_wl_ok s) lems.
 
 Section WlRun.
   Context {TS : Type}.
@@ -19,9 +35,8 @@ Section WlRun.
   Variable th_push th_pop : TS -> TS.
   Variable FUEL : nat.
   Hypothesis Hth : theory_contract T th_propagate th_check.
-  (* no theory lemma, no theory conflict *)
-  Hypothesis th_quiet_p : forall ts a dl p, snd (fst (th_propagate ts a dl p)) = [] /\ snd (th_propagate ts a dl p) = None.
-  Hypothesis th_quiet_c : forall ts a dl, snd (fst (th_check ts a dl)) = [] /\ snd (th_check ts a dl) = None.
+  Hypothesis th_lemmas_wl : forall (s : @state TS) p, Inv T s -> In p (trail s) -> nth (fst p) (level s) 0 = decision_level s ->
+    lemmas_wl_ok s (snd (fst (th_propagate (thst s) (assigns s) (decision_level s) p))).
   Notation state := (@state TS).
   Notation lvl := (@lvl TS).
   Let sort_perm := proj1 Hsort.
@@ -375,18 +390,126 @@ Section WlRun.
   Qed.
 
 
+
+  (* ------------------------------------------------------------------------------------------ *)
+  (* theory lemmas *)
+  Lemma clause_new_assigns : forall (s : state) ls, assigns (fst (clause_new s ls)) = assigns s.
+  Proof. intros. unfold clause_new. destruct ls as [|a [|b r]]; reflexivity. Qed.
+  Lemma record_assigns : forall (s : state) k l0 tail, value_lit s l0 = LU ->
+    assigns (record sort s k (l0 :: tail)) = upd (assigns s) (fst l0) (lbool_of_bool (snd l0)).
+  Proof.
+    intros s k l0 tail Hu. unfold record. destruct tail as [|l1 t].
+    - unfold enqueue. change (value_lit (hook s k [l0]) l0) with (value_lit s l0). rewrite Hu. reflexivity.
+    - set (sh := hook s k (l0 :: l1 :: t)). pose proof (clause_new_assigns sh (l0 :: sort (level_gt sh) (l1 :: t))) as Ha.
+      destruct (clause_new sh (l0 :: sort (level_gt sh) (l1 :: t))) as [s1 id]. simpl in Ha.
+      unfold enqueue. assert (Hv : value_lit s1 l0 = LU). { unfold value_lit, value_var in *. rewrite Ha. exact Hu. }
+      rewrite Hv. simpl. rewrite Ha. reflexivity.
+  Qed.
+  Lemma record_value_other : forall (s : state) k l0 tail x, value_lit s l0 = LU -> fst x <> fst l0 ->
+    value_lit (record sort s k (l0 :: tail)) x = value_lit s x.
+  Proof.
+    intros s k l0 tail x Hu Hx. unfold value_lit, value_var. rewrite (record_assigns s k l0 tail Hu). now rewrite nth_upd_neq by auto.
+  Qed.
+
+  Lemma lemma_wl_ok_step : forall (s : state) l0 tail lem, Inv T s -> lemma_ok T s (l0 :: tail) -> value_lit s l0 = LU ->
+    lemma_ok T s lem -> lemma_wl_ok s lem -> fst (hd TRUE_lit lem) <> fst l0 ->
+    lemma_wl_ok (record sort s 2 (l0 :: tail)) lem.
+  Proof.
+    intros s l0 tail lem I Hl0 Hu Hlem Hw Hne. destruct lem as [|m0 mt]. exact Logic.I. unfold lemma_wl_ok in *. destruct Hw as (H1 & H2 & H3).
+    pose proof (record_tstep T sort s (l0 :: tail) I) as (A1 & _ & _ & _ & _ & A6).
+    pose proof (record_lemma_inv T sort sort_perm s (l0 :: tail) I Hl0) as I1.
+    split; [|split].
+    - rewrite record_value_other; auto.
+    - exact H2.
+    - intros Hmt. destruct (H3 Hmt) as [m [Hm Hlv]]. exists m. split; auto.
+      unfold decision_level. rewrite A1. fold (decision_level s). rewrite <- Hlv.
+      destruct Hlem as (_ & _ & _ & Hf & _). pose proof (Hf m Hm) as Hmf.
+      destruct (value_lit_false T s m (proj1 I) Hmf) as [Hin| ->].
+      + destruct (A6 _ Hin) as [_ G]. exact G.
+      + simpl. rewrite (lvl_var0 T s (proj1 I)). apply (lvl_var0 T _ (proj1 I1)).
+  Qed.
+
+  Lemma WL_lemmas : forall lemmas (s : state), Inv T s -> WL (decision_level s) None s ->
+    Forall (lemma_ok T s) lemmas -> lemmas_wl_ok s lemmas ->
+    WL (decision_level s) None (fold_left (fun s l => record sort s 2 l) lemmas s).
+  Proof.
+    induction lemmas as [|lem t IH]; intros s I W Hok [Hnd Hwl]; simpl. exact W.
+    inversion Hok as [|? ? Hlem Hok']; subst. inversion Hwl as [|? ? Hw Hwl']; subst.
+    simpl in Hnd. apply NoDup_cons_iff in Hnd. destruct Hnd as [Hnin Hnd].
+    destruct lem as [|l0 tail]. { destruct Hlem as (_ & _ & _ & _ & _ & Hne). contradiction. }
+    destruct Hw as (Hu & Hndv & Hlv). destruct Hlem as (B1 & B2 & B3 & B4 & B5 & B6).
+    pose proof (record_tstep T sort s (l0 :: tail) I) as TS1. destruct TS1 as (A1 & A2 & A3 & A4 & A5 & A6).
+    pose proof (record_lemma_inv T sort sort_perm s (l0 :: tail) I (conj B1 (conj B2 (conj B3 (conj B4 (conj B5 B6)))))) as I1.
+    assert (Hd1 : decision_level (record sort s 2 (l0 :: tail)) = decision_level s) by (unfold decision_level; now rewrite A1).
+    assert (W1 : WL (decision_level s) None (record sort s 2 (l0 :: tail))).
+    { apply WL_record; auto. }
+    rewrite <- Hd1. apply IH; auto.
+    - rewrite Hd1. exact W1.
+    - eapply Forall_impl; [|exact Hok']. intros a Ha. eapply lemma_ok_tstep; [|exact Ha].
+      exact (conj A1 (conj A2 (conj A3 (conj A4 (conj A5 A6))))).
+    - split; auto. rewrite Forall_forall in *. intros a Ha.
+      apply lemma_wl_ok_step; auto. repeat split; auto.
+      intros E. apply Hnin. cbn [hd]. rewrite <- E. apply (in_map (fun l => fst (hd TRUE_lit l))). exact Ha.
+  Qed.
+
+  (* the queue is emptied after a theory conflict: what was pending belonged to the current level *)
+  Lemma WL_flush : forall (s : state), Inv0 T s -> WL (decision_level s) None s -> 0 < decision_level s ->
+    WL (decision_level s - 1) None (set_prop_q s []).
+  Proof.
+    intros s I [W0 W1 W2 W3 W4 W5 W6] Hdl.
+    constructor; auto.
+    intros c l0 l1 r Ha El. destruct (W6 c l0 l1 r Ha El) as [H1 H2].
+    assert (Hgen : forall w o, watch_ok s None (decision_level s) c w o -> watch_ok (set_prop_q s []) None (decision_level s - 1) c w o).
+    { intros w o H Hv Hl He. apply H; auto. change (lvl s w <= decision_level s - 1) in Hl. change (lvl s w <= decision_level s). lia.
+      intros [Hx|[rs [E1 _]]]; [|discriminate].
+      pose proof (i_queue_lvl T s I (lneg w) Hx) as Hq. change (lvl s w = decision_level s) in Hq.
+      change (lvl s w <= decision_level s - 1) in Hl. lia. }
+    split; apply Hgen; assumption.
+  Qed.
+
+  Lemma root_dead_root : forall (s : state), root_dead s = true -> root_level s = true.
+  Proof.
+    intros s H. unfold root_dead, root_conflict in H. apply orb_true_iff in H. destruct H as [H|H]; apply andb_true_iff in H; apply H.
+  Qed.
+
   Definition WLfull (s : state) : Prop := WL (decision_level s) None s.
 
   Lemma WL_propagate_f : forall fuel (s s' : state) r, Inv T s -> WLfull s ->
     propagate_f sort th_propagate th_check th_pop fuel s = (s', r) ->
-    (r <> RFalse -> WLfull s') /\ (r = RFalse -> root_conflict s' = true).
+    (r <> RFalse -> WLfull s') /\ (r = RFalse -> root_dead s' = true).
   Proof.
     induction fuel as [|f IH]; intros s s' r I W E; cbn [propagate_f] in E.
     - inversion E; subst. split; [intros _; exact W|discriminate].
     - destruct (prop_q s) as [|p q] eqn:Eq.
-      + destruct (th_quiet_c (thst s) (assigns s) (decision_level s)) as [Q1 Q2].
-        rewrite (apply_quiet s _ Q1 Q2) in E. inversion E; subst. split; [intros _|discriminate].
-        unfold WLfull. eapply WL_frame; [| | | | | |exact W]; reflexivity.
+      + destruct (thc_ok s I) as [Hok Hnil].
+        destruct (apply_theory sort s (th_check (thst s) (assigns s) (decision_level s))) as [s3 cf] eqn:Ea.
+        destruct (apply_theory_inv T sort sort_perm s _ s3 cf I Hok Ea) as (I3 & T3 & Hc & Hq3).
+        specialize (Hq3 Hnil). rewrite Eq in Hq3.
+        assert (W3 : WL (decision_level s) None s3).
+        { destruct (th_check (thst s) (assigns s) (decision_level s)) as [[ts lem] cf0]. simpl in Hnil. subst lem.
+          unfold apply_theory in Ea. simpl in Ea. inversion Ea; subst s3 cf. eapply WL_frame; [| | | | | |exact W]; reflexivity. }
+        destruct T3 as (A1 & A2 & A3 & A4 & A5 & A6).
+        assert (Hd3 : decision_level s3 = decision_level s) by (unfold decision_level; now rewrite A1).
+        destruct cf as [cnfl|].
+        * assert (Hk : entry_ok T (log s3) 3 cnfl). { split. discriminate. intros _. apply (Hc cnfl eq_refl). }
+          pose proof (hook_inv T s3 3 cnfl Hk I3) as I4. set (s4 := hook s3 3 cnfl) in *.
+          assert (Hent : entails T (axioms (log s4)) cnfl).
+          { eapply entails_mono; [|apply (Hc cnfl eq_refl)]. intros x []. }
+          destruct (root_level s4) eqn:Er.
+          -- inversion E; subst s' r. split; [intros H; contradiction|intros _].
+             unfold root_dead. rewrite Er. unfold th_conflict_last, s4. simpl. apply orb_true_r.
+          -- destruct (root_level_false s4 Er) as [Hdl Hne].
+             destruct (cnfl_ok_transfer T s s3 cnfl I (conj A1 (conj A2 (conj A3 (conj A4 (conj A5 A6))))) (Hc cnfl eq_refl)) as [Hv Hex].
+             { unfold s4 in Hne. simpl in Hne. now rewrite A1 in Hne. }
+             assert (Hf4 : forall r0, In r0 cnfl -> false_in (trail s4) r0).
+             { intros r0 Hr0. apply (value_lit_false T s4 r0 (proj1 I4)). apply Hv; auto. }
+             assert (W4 : WL (decision_level s4 - 1) None s4).
+             { change (decision_level s4) with (decision_level s3). rewrite Hd3.
+               eapply WL_frame; [| | | | | |apply (WL_level_mono (decision_level s)); [|exact W3]]; try reflexivity. lia. }
+             destruct (abr_inv T sort sort_perm th_pop s4 cnfl I4 Hq3 Hdl Hf4 Hent Hex) as (I5 & _).
+             pose proof (WL_abr s4 cnfl I4 Hq3 Hdl Hf4 Hent Hex W4) as W5.
+             exact (IH _ s' r I5 W5 E).
+        * inversion E; subst s' r. split; [intros _|discriminate]. unfold WLfull. rewrite Hd3. exact W3.
       + set (s0 := set_prop_q s q) in *.
         assert (I0 : Inv T s0). { apply set_prop_q_inv; auto. rewrite Eq. intros x Hx. simpl; auto. }
         assert (Hp : In p (trail s)). { apply (i_queue T s (proj1 I)). rewrite Eq. simpl; auto. }
@@ -414,6 +537,7 @@ Section WlRun.
           assert (I3 : Inv T s3). { apply set_prop_q_inv. intros x []. apply watch_restore_inv; auto. }
           destruct (root_level s3) eqn:Er.
           { inversion E; subst s' r. split; [intros H; contradiction|intros _].
+            unfold root_dead. apply orb_true_iff. left.
             unfold root_conflict. rewrite Er. simpl. apply existsb_exists.
             exists (nth (index p) (watches s3) []). split.
             - apply nth_In. unfold s3. simpl. rewrite upd_length. lia.
@@ -434,13 +558,43 @@ Section WlRun.
           destruct (abr_inv T sort sort_perm th_pop s3 (lits_of s3 c) I3 eq_refl Hdl Hf3 Hent Hex) as (I5 & _).
           pose proof (WL_abr s3 (lits_of s3 c) I3 eq_refl Hdl Hf3 Hent Hex W3) as W5.
           exact (IH _ s' r I5 W5 E).
-        * destruct (th_quiet_p (thst s2) (assigns s2) (decision_level s2) p) as [Q1 Q2].
-          rewrite (apply_quiet s2 _ Q1 Q2) in E.
-          refine (IH _ s' r _ _ E).
-          -- apply set_thst_inv. exact I2.
-          -- unfold WLfull.
-             change (decision_level (set_thst s2 (fst (fst (th_propagate (thst s2) (assigns s2) (decision_level s2) p))))) with (decision_level s2).
-             rewrite Hdl2. eapply WL_frame; [| | | | | |exact W2]; reflexivity.
+        * pose proof (thp_ok s2 p I2 Hp2 Hpl2) as Hok. pose proof (th_lemmas_wl s2 p I2 Hp2 Hpl2) as Hwl.
+          destruct (apply_theory sort s2 (th_propagate (thst s2) (assigns s2) (decision_level s2) p)) as [s3 cf] eqn:Ea.
+          destruct (apply_theory_inv T sort sort_perm s2 _ s3 cf I2 Hok Ea) as (I3 & T3 & Hcf & _).
+          assert (W3 : WL (decision_level s2) None s3).
+          { destruct (th_propagate (thst s2) (assigns s2) (decision_level s2) p) as [[ts lem] cf0]. destruct Hok as [Hok _]. simpl in Hok, Hwl.
+            unfold apply_theory in Ea. inversion Ea; subst s3 cf.
+            apply (WL_lemmas lem (set_thst s2 ts)).
+            - apply set_thst_inv. exact I2.
+            - change (decision_level (set_thst s2 ts)) with (decision_level s2). rewrite Hdl2.
+              eapply WL_frame; [| | | | | |exact W2]; reflexivity.
+            - eapply Forall_impl; [|exact Hok]. intros a Ha. exact Ha.
+            - exact Hwl. }
+          destruct T3 as (A1 & A2 & A3 & A4 & A5 & A6).
+          assert (Hd3 : decision_level s3 = decision_level s2) by (unfold decision_level; now rewrite A1).
+          destruct cf as [cnfl|].
+          -- set (s4 := hook (set_prop_q s3 []) 3 cnfl) in *.
+             assert (I3' : Inv T (set_prop_q s3 [])). { apply set_prop_q_inv; auto. intros x []. }
+             assert (Hk : entry_ok T (log (set_prop_q s3 [])) 3 cnfl). { split. discriminate. intros _. apply (Hcf cnfl eq_refl). }
+             pose proof (hook_inv T _ 3 cnfl Hk I3') as I4. fold s4 in I4.
+             assert (Hent : entails T (axioms (log s4)) cnfl).
+             { eapply entails_mono; [|apply (Hcf cnfl eq_refl)]. intros x []. }
+             destruct (root_level s4) eqn:Er.
+             ++ inversion E; subst s' r. split; [intros H; contradiction|intros _].
+                unfold root_dead. rewrite Er. unfold th_conflict_last, s4. simpl. apply orb_true_r.
+             ++ destruct (root_level_false s4 Er) as [Hdl Hne].
+                destruct (cnfl_ok_transfer T s2 s3 cnfl I2 (conj A1 (conj A2 (conj A3 (conj A4 (conj A5 A6))))) (Hcf cnfl eq_refl)) as [Hv Hex].
+                { unfold s4 in Hne. simpl in Hne. now rewrite A1 in Hne. }
+                assert (Hf4 : forall r0, In r0 cnfl -> false_in (trail s4) r0).
+                { intros r0 Hr0. apply (value_lit_false T s4 r0 (proj1 I4)). apply Hv; auto. }
+                assert (W4 : WL (decision_level s4 - 1) None s4).
+                { change (decision_level s4) with (decision_level s3).
+                  eapply WL_frame; [| | | | | |apply (WL_flush s3 (proj1 I3))]; try reflexivity.
+                  rewrite Hd3. exact W3. exact Hdl. }
+                destruct (abr_inv T sort sort_perm th_pop s4 cnfl I4 eq_refl Hdl Hf4 Hent Hex) as (I5 & _).
+                pose proof (WL_abr s4 cnfl I4 eq_refl Hdl Hf4 Hent Hex W4) as W5.
+                exact (IH _ s' r I5 W5 E).
+          -- refine (IH _ s' r I3 _ E). unfold WLfull. rewrite Hd3. exact W3.
   Qed.
 
   Notation propagate := (propagate sort th_propagate th_check th_pop FUEL).
@@ -613,12 +767,12 @@ Section WlRun.
         destruct (pop_keeps T th_pop s d2 I Hq Hd2 (Hlow d2 (or_introl eq_refl))) as [_ K2]. fold s1 in K2. rewrite K2. lia. }
     destruct (WL_propagate_f FUEL _ s' r I2 W2 E) as [P1 P2].
     destruct r; [right; apply P1; discriminate| |right; apply P1; discriminate].
-    left. split; auto. specialize (P2 eq_refl). unfold root_conflict in P2. apply andb_true_iff in P2. apply P2.
+    left. split; auto. apply root_dead_root. apply P2. reflexivity.
   Qed.
 
 
   Lemma WL_assume_gen : forall (s s' : state) p r, Inv T s -> WLfull s -> prop_q s = [] -> fst p < length (assigns s) ->
-    assume s p = (s', r) -> (r = RFalse /\ root_conflict s' = true) \/ WLfull s'.
+    assume s p = (s', r) -> (r = RFalse /\ root_dead s' = true) \/ WLfull s'.
   Proof.
     intros s s' p r I W Hq Hr E. unfold SatCore.assume in E.
     change (mkst (constrs s) (cls s) (watches s) (assigns s) (prop_q s) (trail s) (length (trail s) :: trail_lim s)
@@ -640,15 +794,15 @@ Section WlRun.
     - inversion E; subst. right. exact W2.
   Qed.
 
-  Lemma root_conflict_pop_until : forall bt (s : state), root_conflict s = true -> pop_until th_pop bt s = s.
+  Lemma root_conflict_pop_until : forall bt (s : state), root_dead s = true -> pop_until th_pop bt s = s.
   Proof.
-    intros bt s H. unfold root_conflict in H. apply andb_true_iff in H. destruct H as [H _].
+    intros bt s H. apply root_dead_root in H.
     unfold pop_until, decision_level, root_level in *. destruct (trail_lim s); [reflexivity|discriminate].
   Qed.
 
   Lemma WL_check_loop : forall lits (s : state) c_rl s' r, Inv T s -> WLfull s -> prop_q s = [] ->
     (forall l, In l lits -> fst l < length (assigns s)) -> check_loop s c_rl lits = (s', r) ->
-    (r = RFalse /\ root_conflict s' = true) \/ WLfull s'.
+    (r = RFalse /\ root_dead s' = true) \/ WLfull s'.
   Proof.
     induction lits as [|p t IH]; intros s c_rl s' r I W Hq Hr E; simpl in E.
     - inversion E; subst. right. apply WLfull_pop_until; auto.
